@@ -41,7 +41,7 @@ def replay(ck, selftest=True):
       m = r["mismatches"][0]
       ck.violation(f"tf|{c['so']}|{m['clause']}",
                    f"TFControl_Gen replay cfg={c} step {m['step']}: {m['clause']} {m.get('detail', '')}",
-                   {"job": j, "mismatches": r["mismatches"][:10]})
+                   {"worker": "harness.workers.tf_cadence", "job": j, "mismatches": r["mismatches"][:10]})
     else:
       ck.traces_ok(1)
   if selftest:
